@@ -92,4 +92,10 @@ def sendFuncR (m : SMode) (recv : Option SErr) (outs : List (Option SErr)) : Nat
   | some e => (0, recvFinal m e)
   | none => sendFunc m outs 0
 
+/-- `if replayWait.IsClosed() { return err }` right after a failed `sendFuncOnce`: when the run
+    has been closed (from outside, or by the receiver) the failure is reported at once, whatever its
+    class — in particular a batch that was already dispatched when the close arrived (the sender was
+    blocked handing it to the receiver) is not dispatched again. -/
+def sendFuncClosed : Nat × Final := (1, .other)
+
 end GunYu.ClusterSender
